@@ -51,6 +51,13 @@ def member(label, n, rnd, members=None, plain_graph=False, style="random", mix=T
         picks = [rnd.randrange(24) for _ in range(n)]
     local = [(nm, (q,)) for q in range(n) for nm in lcorbit.LC24[picks[q]]]
     circ = circ + flips + local
+    if rnd.random() < 0.6:
+        # same state, generic circuit: a random Clifford detour U ... U^-1 (so that two-qubit gates also act on
+        # tableaus that are not in graph form when the library reads the circuit)
+        from ..oracle.pauli import inverse_gates
+        U = random_gates(n, rnd.choice([3, 6, 10]), rnd, "uniform")
+        k = rnd.randrange(len(circ) + 1)
+        circ = circ[:k] + U + inverse_gates(U) + circ[k:]
     gens = state_of(circ, n)
     if mix:
         gens = groups.random_presentation(gens, n, rnd)
